@@ -374,6 +374,8 @@ fn single_player_iter<'a, const FIRST: bool>(
 
     // update all infosets
     work.payoffs.clear();
+    // nodes left in `work` belong to this pass only; they must not become tasks of the next pass
+    work.work.clear();
     chance_infosets
         .iter_mut()
         .for_each(|info| info.get_mut().unwrap().advance());
